@@ -106,6 +106,7 @@ fn estimate(ts: u32, freq: u32, client: bool) -> Est {
 
 /// every tracker entry lives at least this long (the shortest TTL the code has ever documented: 30 s)
 const ENTRY_LIVES_AT_LEAST_NS: u64 = 30_000_000_000;
+const MARKER_LIVES_AT_LEAST_NS: u64 = 590_000_000_000;
 
 #[derive(Clone, Debug)]
 enum St {
@@ -190,7 +191,7 @@ impl Prop for C19 {
                 _ => *r.pick(&[100.0, 250.0, 1000.0]),
             }
         };
-        let gaps_ms: [u64; 22] = [1, 10, 24, 25, 26, 40, 99, 100, 101, 500, 1000, 2500, 10_000, 29_900, 30_100, 45_000, 120_000, 599_900, 600_000, 600_100, 700_000, 5];
+        let gaps_ms: [u64; 26] = [1, 10, 24, 25, 26, 40, 99, 100, 101, 500, 1000, 2500, 10_000, 29_900, 30_100, 45_000, 120_000, 599_900, 600_000, 600_100, 700_000, 5, 200_000, 300_000, 350_000, 450_000];
         for ci in 0..nconn {
             let cport = if r.chance(1, 8) { 1000 } else { 40000 + r.below(1000) as u16 + ci as u16 * 1000 };
             let sport = *r.pick(&[80u16, 443, 22, 1024, 1025, 8080, 8443]);
@@ -454,7 +455,9 @@ impl Prop for C19 {
                     // only thing assumed is that an entry lives at least ENTRY_LIVES_AT_LEAST_NS. Beyond
                     // that the marker may or may not have expired (this segment then becomes a new
                     // reference): nothing is reported either way, and the endpoint is no longer judged.
-                    if clock::mono_ns().saturating_sub(at_ns) > ENTRY_LIVES_AT_LEAST_NS {
+                    // (a marker is an entry like a reference: since references are relied on for the whole 10-minute
+                    // window, so is the marker - judged silent for 590 s, unjudged around and beyond the 600 s mark)
+                    if clock::mono_ns().saturating_sub(at_ns) > MARKER_LIVES_AT_LEAST_NS {
                         model.insert(key, St::Unknown);
                     }
                     Expect::Nothing
